@@ -800,4 +800,628 @@ theorem socketIpAddr_accept_only_spellings (C : HostCodec) (hC : C.Lawful) (s : 
     · cases hp
     · cases hp
 
+/-! ## DNS TXT address records -/
+
+def Ws (w : Str) : Prop := ∀ c ∈ w, isWhitespace c = true
+def NoWs (s : Str) : Prop := ∀ c ∈ s, isWhitespace c = false
+
+theorem Ws.nil : Ws [] := by intro c hc; cases hc
+theorem Ws.append {a b : Str} (ha : Ws a) (hb : Ws b) : Ws (a ++ b) := by
+  intro c hc; rcases List.mem_append.mp hc with h | h
+  · exact ha c h
+  · exact hb c h
+
+theorem trimStart_decomp : ∀ (s : Str), ∃ w, Ws w ∧ s = w ++ trimStart s
+  | [] => ⟨[], Ws.nil, rfl⟩
+  | c :: cs => by
+    unfold trimStart
+    by_cases h : isWhitespace c = true
+    · obtain ⟨w, hw, he⟩ := trimStart_decomp cs
+      refine ⟨c :: w, ?_, ?_⟩
+      · intro x hx; rcases List.mem_cons.mp hx with rfl | hx
+        · exact h
+        · exact hw x hx
+      · rw [List.dropWhile_cons_of_pos h]; unfold trimStart at he; rw [List.cons_append, ← he]
+    · exact ⟨[], Ws.nil, by rw [List.dropWhile_cons_of_neg h]; rfl⟩
+
+theorem trimEnd_decomp (s : Str) : ∃ w, Ws w ∧ s = trimEnd s ++ w := by
+  unfold trimEnd
+  obtain ⟨w, hw, he⟩ := trimStart_decomp s.reverse
+  refine ⟨w.reverse, fun c hc => hw c (by simpa using hc), ?_⟩
+  have := congrArg List.reverse he
+  simpa using this
+
+theorem trim_decomp (s : Str) : ∃ w1 w2, Ws w1 ∧ Ws w2 ∧ s = w1 ++ trim s ++ w2 := by
+  obtain ⟨w1, h1, e1⟩ := trimStart_decomp s
+  obtain ⟨w2, h2, e2⟩ := trimEnd_decomp (trimStart s)
+  exact ⟨w1, w2, h1, h2, by unfold trim; rw [List.append_assoc, ← e2, ← e1]⟩
+
+theorem trimStart_noWs {s : Str} (h : NoWs s) : trimStart s = s := by
+  cases s with
+  | nil => rfl
+  | cons c cs =>
+    unfold trimStart
+    rw [List.dropWhile_cons_of_neg (by simp [h c (by simp)])]
+
+theorem trim_noWs {s : Str} (h : NoWs s) : trim s = s := by
+  unfold trim trimEnd
+  rw [trimStart_noWs h, trimStart_noWs (fun c hc => h c (by simpa using hc))]
+  simp
+
+theorem trim_length_le (s : Str) : (trim s).length ≤ s.length := by
+  obtain ⟨w1, w2, _, _, e⟩ := trim_decomp s
+  have := congrArg List.length e
+  simp at this; omega
+
+theorem find_some {c : Char} : ∀ {s : Str} {i : Nat}, find c s = some i →
+    s = s.take i ++ c :: s.drop (i + 1) ∧ c ∉ s.take i
+  | [], i, h => by simp [find] at h
+  | x :: xs, i, h => by
+    unfold find at h
+    split at h
+    · next hx => cases h; subst hx; simp
+    · next hx =>
+      split at h
+      · next j hj =>
+        cases h
+        obtain ⟨h1, h2⟩ := find_some hj
+        refine ⟨by simp only [List.take_succ_cons, List.drop_succ_cons, List.cons_append]; rw [← h1], ?_⟩
+        simp only [List.take_succ_cons, List.mem_cons, not_or]
+        exact ⟨fun h => hx h.symm, h2⟩
+      · cases h
+
+theorem find_append {c : Char} : ∀ {a b : Str}, c ∉ a → find c (a ++ c :: b) = some a.length
+  | [], b, _ => by simp [find]
+  | x :: xs, b, h => by
+    have hx : x ≠ c := by intro hx; subst hx; exact h (by simp)
+    have ht : c ∉ xs := fun hm => h (by simp [hm])
+    simp [find, hx, find_append ht]
+
+theorem txt_consts : TXT_OPEN ≠ TXT_CLOSE ∧ TXT_ENTRY_SEP = ADDR_SEP ∧ TXT_OPEN = SOCK_OPEN ∧ TXT_CLOSE = SOCK_CLOSE := by decide
+
+theorem startsWith_iff {c : Char} {s : Str} : startsWith c s = true ↔ ∃ t, s = c :: t := by
+  cases s with
+  | nil => simp [startsWith]
+  | cons x xs =>
+    constructor
+    · intro h
+      have : x = c := by simpa [startsWith] using h
+      exact ⟨xs, by rw [this]⟩
+    · intro ⟨t, ht⟩
+      cases ht
+      simp [startsWith]
+
+theorem parseTxtLoop_total (C : HostCodec) : ∀ (fuel : Nat) (remaining : Str), remaining.length < fuel →
+    parseTxtLoop C fuel remaining ≠ .panic := by
+  intro fuel
+  induction fuel with
+  | zero => intro r h; omega
+  | succ fuel ih =>
+    intro remaining hlen
+    unfold parseTxtLoop
+    split
+    · simp
+    · next hopen =>
+      have hopen' : startsWith TXT_OPEN remaining = true := by simpa using hopen
+      obtain ⟨t, rfl⟩ := startsWith_iff.mp hopen'
+      split
+      · simp
+      · next closeIdx hfind =>
+        obtain ⟨hdec, _⟩ := find_some hfind
+        split
+        · next hlt =>
+          exfalso
+          have : closeIdx = 0 := by omega
+          subst this
+          simp at hdec
+          exact txt_consts.1 hdec
+        · simp only
+          split
+          · simp
+          · split
+            · next hp => exact absurd hp (isdAsn_total _)
+            · simp
+            · split
+              · simp
+              · split
+                · simp
+                · split
+                  · simp
+                  · split
+                    · simp
+                    · next hne =>
+                      have hl : (trim ((trim ((TXT_OPEN :: t).drop (closeIdx + 1))).drop 1)).length < fuel := by
+                        have h1 := trim_length_le ((trim ((TXT_OPEN :: t).drop (closeIdx + 1))).drop 1)
+                        have h2 := trim_length_le ((TXT_OPEN :: t).drop (closeIdx + 1))
+                        simp only [List.length_drop, List.length_cons] at h1 h2 hlen
+                        omega
+                      have := ih _ hl
+                      split
+                      · simp
+                      · simp
+                      · next hp => exact absurd hp this
+
+/-- **TXT parser never panics**: neither a slice nor the ISD-AS `expect` nor the loop bound is reachable -/
+theorem txt_total (C : HostCodec) (s : Str) : parseTxt C s ≠ .panic := by
+  unfold parseTxt
+  simp only
+  split
+  · simp
+  · exact parseTxtLoop_total C _ _ (by omega)
+
+/-- `"[" ws isd-as ws "," ws ip-address ws "]"` -/
+def TxtEntrySp (C : HostCodec) (a : ScionAddr) (s : Str) : Prop :=
+  ∃ w1 sia w2 w3 sh w4, Ws w1 ∧ Ws w2 ∧ Ws w3 ∧ Ws w4 ∧
+    s = TXT_OPEN :: (w1 ++ sia ++ w2 ++ TXT_ENTRY_SEP :: (w3 ++ sh ++ w4 ++ [TXT_CLOSE])) ∧
+    IsdAsnSp a.ia sia ∧ HostSp C a.host sh
+
+/-- `address *( ws "," ws address )` – in particular no dangling separator -/
+inductive TxtListSp (C : HostCodec) : List ScionAddr → Str → Prop
+  | one {a : ScionAddr} {s : Str} : TxtEntrySp C a s → TxtListSp C [a] s
+  | cons {a : ScionAddr} {s : Str} {l : List ScionAddr} {rest w1 w2 : Str} :
+      TxtEntrySp C a s → Ws w1 → Ws w2 → TxtListSp C l rest →
+      TxtListSp C (a :: l) (s ++ w1 ++ TXT_LIST_SEP :: (w2 ++ rest))
+
+/-- spellings of a TXT payload: the documented record grammar, white space allowed around every token -/
+def TxtSp (C : HostCodec) (l : List ScionAddr) (s : Str) : Prop :=
+  ∃ w1 body w2, Ws w1 ∧ Ws w2 ∧ s = w1 ++ body ++ w2 ∧ TxtListSp C l body
+
+def ScionAddr.IsIp (a : ScionAddr) : Prop := ∀ v, a.host ≠ .svc v
+
+theorem parseIp_sp {C : HostCodec} (hC : C.Lawful) {s : Str} {h : Host} (hp : parseIp C s = some h) :
+    HostSp C h s ∧ h.Valid ∧ ∀ v, h ≠ .svc v := by
+  unfold parseIp at hp
+  split at hp
+  · next a h4 => cases hp; exact ⟨h4, hC.range4 _ _ h4, by simp⟩
+  · split at hp
+    · next a h6 => cases hp; exact ⟨h6, hC.range6 _ _ h6, by simp⟩
+    · cases hp
+
+theorem take_cons_drop_one {c : Char} {t : Str} {k : Nat} (hk : ¬ k < 1) :
+    (c :: t).take k = c :: ((c :: t).take k).drop 1 := by
+  cases k with
+  | zero => omega
+  | succ k => simp
+
+theorem txt_entry_sp {C : HostCodec} (hC : C.Lawful) {t : Str} {closeIdx : Nat} {ias hs : Str} {ia : Nat} {h : Host}
+    (hfind : find TXT_CLOSE (TXT_OPEN :: t) = some closeIdx) (hge : ¬ closeIdx < 1)
+    (hsplit : splitOnce TXT_ENTRY_SEP (trim (((TXT_OPEN :: t).take closeIdx).drop 1)) = some (ias, hs))
+    (hia : parseIsdAsn (trim ias) = .ok ia) (hh : parseIp C (trim hs) = some h) :
+    ∃ e, TxtEntrySp C ⟨ia, h⟩ e ∧ TXT_OPEN :: t = e ++ (TXT_OPEN :: t).drop (closeIdx + 1) ∧
+      ScionAddr.Valid ⟨ia, h⟩ ∧ ScionAddr.IsIp ⟨ia, h⟩ := by
+  obtain ⟨hdec, _⟩ := find_some hfind
+  obtain ⟨wa, wb, hwa, hwb, einner⟩ := trim_decomp (((TXT_OPEN :: t).take closeIdx).drop 1)
+  obtain ⟨eentry, _⟩ := splitOnce_some hsplit
+  obtain ⟨u1, u2, hu1, hu2, eias⟩ := trim_decomp ias
+  obtain ⟨u3, u4, hu3, hu4, ehs⟩ := trim_decomp hs
+  obtain ⟨spia, hiar⟩ := isdAsn_accept_only_spellings _ _ hia
+  obtain ⟨sph, hval, hip⟩ := parseIp_sp hC hh
+  refine ⟨(TXT_OPEN :: t).take closeIdx ++ [TXT_CLOSE], ?_, ?_, ⟨hiar, hval⟩, hip⟩
+  · refine ⟨wa ++ u1, trim ias, u2, u3, trim hs, u4 ++ wb, hwa.append hu1, hu2, hu3, hu4.append hwb, ?_, spia, sph⟩
+    rw [take_cons_drop_one hge, einner, eentry]
+    conv => lhs; rw [eias, ehs]
+    simp
+  · conv => lhs; rw [hdec]
+    simp
+
+theorem parseTxtLoop_sp {C : HostCodec} (hC : C.Lawful) : ∀ (fuel : Nat) (remaining : Str) (l : List ScionAddr),
+    parseTxtLoop C fuel remaining = .ok l →
+    ∃ body w, Ws w ∧ remaining = body ++ w ∧ TxtListSp C l body ∧ l ≠ [] ∧ ∀ a ∈ l, a.Valid ∧ a.IsIp := by
+  intro fuel
+  induction fuel with
+  | zero => intro r l h; simp [parseTxtLoop] at h
+  | succ fuel ih =>
+    intro remaining l hp
+    unfold parseTxtLoop at hp
+    split at hp
+    · cases hp
+    · next hopen =>
+      have hopen' : startsWith TXT_OPEN remaining = true := by simpa using hopen
+      obtain ⟨t, rfl⟩ := startsWith_iff.mp hopen'
+      split at hp
+      · cases hp
+      · next closeIdx hfind =>
+        split at hp
+        · cases hp
+        · next hge =>
+          simp only at hp
+          split at hp
+          · cases hp
+          · next ias hs hsplit =>
+            split at hp
+            · cases hp
+            · cases hp
+            · next ia hia =>
+              split at hp
+              · cases hp
+              · next h hh =>
+                obtain ⟨e, hesp, hrem, hval, hip⟩ := txt_entry_sp hC hfind hge hsplit hia hh
+                obtain ⟨wc, wd, hwc, hwd, erest⟩ := trim_decomp ((TXT_OPEN :: t).drop (closeIdx + 1))
+                split at hp
+                · next hempty =>
+                  cases hp
+                  have hnil : trim ((TXT_OPEN :: t).drop (closeIdx + 1)) = [] := by simpa using hempty
+                  refine ⟨e, wc ++ wd, hwc.append hwd, ?_, .one hesp, by simp, ?_⟩
+                  · conv => lhs; rw [hrem, erest, hnil]
+                    simp
+                  · intro a ha; simp at ha; subst ha; exact ⟨hval, hip⟩
+                · split at hp
+                  · cases hp
+                  · next hsep =>
+                    have hsep' : startsWith TXT_LIST_SEP (trim ((TXT_OPEN :: t).drop (closeIdx + 1))) = true := by simpa using hsep
+                    obtain ⟨r1, er1⟩ := startsWith_iff.mp hsep'
+                    split at hp
+                    · cases hp
+                    · split at hp
+                      · next more hmore =>
+                        cases hp
+                        obtain ⟨body', w', hw', erem', hsp', hne', hall'⟩ := ih _ _ hmore
+                        obtain ⟨we, wf, hwe, hwf, er1'⟩ := trim_decomp ((trim ((TXT_OPEN :: t).drop (closeIdx + 1))).drop 1)
+                        refine ⟨e ++ wc ++ TXT_LIST_SEP :: (we ++ body'), w' ++ wf ++ wd, (hw'.append hwf).append hwd, ?_,
+                          .cons hesp hwc hwe hsp', by simp, ?_⟩
+                        · conv => lhs; rw [hrem, erest, er1]
+                          have : r1 = we ++ (body' ++ w') ++ wf := by
+                            have h1 : (trim ((TXT_OPEN :: t).drop (closeIdx + 1))).drop 1 = r1 := by rw [er1]; rfl
+                            rw [← h1]; conv => lhs; rw [er1']
+                            rw [erem']
+                          rw [this]
+                          simp
+                        · intro a ha
+                          rcases List.mem_cons.mp ha with rfl | ha
+                          · exact ⟨hval, hip⟩
+                          · exact hall' a ha
+                      · cases hp
+                      · cases hp
+
+/-- **accepted TXT payloads are exactly the record grammar** (up to white space): every character is
+    accounted for, in particular no dangling separator and nothing before `[` or after `]` -/
+theorem txt_accept_only_spellings (C : HostCodec) (hC : C.Lawful) (s : Str) (l : List ScionAddr)
+    (hp : parseTxt C s = .ok l) : TxtSp C l s ∧ l ≠ [] ∧ ∀ a ∈ l, a.Valid ∧ a.IsIp := by
+  unfold parseTxt at hp
+  simp only at hp
+  split at hp
+  · cases hp
+  · obtain ⟨body, w, hw, erem, hsp, hne, hall⟩ := parseTxtLoop_sp hC _ _ _ hp
+    obtain ⟨w1, w2, hw1, hw2, es⟩ := trim_decomp s
+    refine ⟨⟨w1, body, w ++ w2, hw1, hw.append hw2, ?_, hsp⟩, hne, hall⟩
+    conv => lhs; rw [es, erem]
+    simp
+
+/-! ### the record grammar parses back -/
+
+def txtAlphabet : Str := lowerDigits ++ ipv6Alphabet ++ [TXT_OPEN, TXT_CLOSE, TXT_ENTRY_SEP, TXT_LIST_SEP, IA_SEP, ASN_SEP]
+
+theorem txtAlphabet_noWs : ∀ c ∈ txtAlphabet, isWhitespace c = false := by decide
+
+theorem showIsdAsn_chars (v : Nat) : ∀ c ∈ showIsdAsn v, c ∈ lowerDigits ∨ c = IA_SEP ∨ c = ASN_SEP := by
+  have hn : ∀ r n, 2 ≤ r → ∀ c ∈ showNat r n, c ∈ lowerDigits ∨ c = IA_SEP ∨ c = ASN_SEP :=
+    fun r n hr c hc => Or.inl (showNat_chars hr n c hc)
+  intro c hc
+  unfold showIsdAsn showIsd showAsn at hc
+  simp only [List.mem_append, List.mem_singleton] at hc
+  rcases hc with (hc | hc) | hc
+  · exact hn _ _ (by omega) c hc
+  · exact Or.inr (Or.inl hc)
+  · split at hc
+    · exact hn _ _ (by omega) c hc
+    · rw [showAsn_hex] at hc
+      simp only [List.mem_append, List.mem_cons] at hc
+      rcases hc with hc | hc | hc | hc | hc
+      · exact hn _ _ (by omega) c hc
+      · exact Or.inr (Or.inr hc)
+      · exact hn _ _ (by omega) c hc
+      · exact Or.inr (Or.inr hc)
+      · exact hn _ _ (by omega) c hc
+
+theorem showIpHost_chars {C : HostCodec} (hC : C.Lawful) {h : Host} (hv : h.Valid) (hip : ∀ v, h ≠ .svc v) :
+    ∀ c ∈ showHost C h, c ∈ ipv6Alphabet := by
+  cases h with
+  | v4 a => exact fun c hc => alpha4_sub c (show4_alpha hC hv c hc)
+  | v6 a => exact show6_alpha hC hv
+  | svc v => exact absurd rfl (hip v)
+
+theorem parseIp_showHost {C : HostCodec} (hC : C.Lawful) {h : Host} (hv : h.Valid) (hip : ∀ v, h ≠ .svc v) :
+    parseIp C (showHost C h) = some h := by
+  cases h with
+  | v4 a => simp [parseIp, showHost, hC.rt4 a hv]
+  | v6 a => simp [parseIp, showHost, parse4_show6 hC hv, hC.rt6 a hv]
+  | svc v => exact absurd rfl (hip v)
+
+/-- characters of `isd-as "," ip` -/
+theorem entryBody_chars {C : HostCodec} (hC : C.Lawful) (a : ScionAddr) (ha : a.Valid) (hip : a.IsIp) :
+    ∀ c ∈ showIsdAsn a.ia ++ TXT_ENTRY_SEP :: showHost C a.host,
+      c ∈ lowerDigits ∨ c = IA_SEP ∨ c = ASN_SEP ∨ c = TXT_ENTRY_SEP ∨ c ∈ ipv6Alphabet := by
+  intro c hc
+  simp only [List.mem_append, List.mem_cons] at hc
+  rcases hc with hc | hc | hc
+  · rcases showIsdAsn_chars _ c hc with h | h | h
+    · exact Or.inl h
+    · exact Or.inr (Or.inl h)
+    · exact Or.inr (Or.inr (Or.inl h))
+  · exact Or.inr (Or.inr (Or.inr (Or.inl hc)))
+  · exact Or.inr (Or.inr (Or.inr (Or.inr (showIpHost_chars hC ha.2 hip c hc))))
+
+theorem mem_txtAlphabet_of {c : Char}
+    (h : c ∈ lowerDigits ∨ c = IA_SEP ∨ c = ASN_SEP ∨ c = TXT_ENTRY_SEP ∨ c ∈ ipv6Alphabet) : c ∈ txtAlphabet := by
+  unfold txtAlphabet
+  simp only [List.mem_append, List.mem_cons]
+  rcases h with h | h | h | h | h
+  · exact Or.inl (Or.inl h)
+  · subst h; simp
+  · subst h; simp
+  · subst h; simp
+  · exact Or.inl (Or.inr h)
+
+theorem close_not_in_body : TXT_CLOSE ∉ lowerDigits ∧ TXT_CLOSE ≠ IA_SEP ∧ TXT_CLOSE ≠ ASN_SEP ∧ TXT_CLOSE ≠ TXT_ENTRY_SEP ∧
+    TXT_CLOSE ∉ ipv6Alphabet ∧ TXT_CLOSE ≠ TXT_OPEN := by decide
+
+theorem showTxt_chars {C : HostCodec} (hC : C.Lawful) : ∀ (l : List ScionAddr), (∀ a ∈ l, a.Valid ∧ a.IsIp) →
+    ∀ c ∈ showTxt C l, c ∈ txtAlphabet
+  | [], _ => by simp [showTxt]
+  | [a], h => by
+    intro c hc
+    simp only [showTxt, showTxtEntry, List.mem_append, List.mem_singleton] at hc
+    have hb := entryBody_chars hC a (h a (by simp)).1 (h a (by simp)).2
+    rcases hc with (((hc | hc) | hc) | hc) | hc
+    · subst hc; simp [txtAlphabet]
+    · exact mem_txtAlphabet_of (hb c (by simp [hc]))
+    · subst hc; simp [txtAlphabet]
+    · exact mem_txtAlphabet_of (hb c (by simp [hc]))
+    · subst hc; simp [txtAlphabet]
+  | a :: b :: rest, h => by
+    intro c hc
+    simp only [showTxt, showTxtEntry, List.mem_append, List.mem_singleton] at hc
+    have hb := entryBody_chars hC a (h a (by simp)).1 (h a (by simp)).2
+    rcases hc with ((((((hc | hc) | hc) | hc) | hc) | hc)) | hc
+    · subst hc; simp [txtAlphabet]
+    · exact mem_txtAlphabet_of (hb c (by simp [hc]))
+    · subst hc; simp [txtAlphabet]
+    · exact mem_txtAlphabet_of (hb c (by simp [hc]))
+    · subst hc; simp [txtAlphabet]
+    · subst hc; simp [txtAlphabet]
+    · exact showTxt_chars hC (b :: rest) (fun x hx => h x (by simp at hx ⊢; exact Or.inr hx)) c hc
+
+theorem noWs_of_alphabet {s : Str} (h : ∀ c ∈ s, c ∈ txtAlphabet) : NoWs s := fun c hc => txtAlphabet_noWs c (h c hc)
+
+/-- one iteration of the loop on `entry ++ tail` -/
+theorem parseTxtLoop_step {C : HostCodec} (hC : C.Lawful) (a : ScionAddr) (ha : a.Valid) (hip : a.IsIp) (tail : Str) (fuel : Nat) :
+    parseTxtLoop C (fuel + 1) (showTxtEntry C a ++ tail) =
+      if (trim tail).isEmpty then .ok [a]
+      else if !startsWith TXT_LIST_SEP (trim tail) then .err
+      else if (trim ((trim tail).drop 1)).isEmpty then .err
+      else match parseTxtLoop C fuel (trim ((trim tail).drop 1)) with
+        | .ok more => .ok (a :: more)
+        | .err => .err
+        | .panic => .panic := by
+  obtain ⟨ia, h⟩ := a
+  have hb := entryBody_chars hC ⟨ia, h⟩ ha hip
+  simp only at hb
+  obtain ⟨c1, c2, c3, c4, c5, c6⟩ := close_not_in_body
+  have hclose : TXT_CLOSE ∉ TXT_OPEN :: (showIsdAsn ia ++ TXT_ENTRY_SEP :: showHost C h) := by
+    intro hm
+    rcases List.mem_cons.mp hm with hm | hm
+    · exact c6 hm
+    · rcases hb _ hm with h | h | h | h | h
+      · exact c1 h
+      · exact c2 h
+      · exact c3 h
+      · exact c4 h
+      · exact c5 h
+  have hshape : showTxtEntry C ⟨ia, h⟩ ++ tail =
+      (TXT_OPEN :: (showIsdAsn ia ++ TXT_ENTRY_SEP :: showHost C h)) ++ TXT_CLOSE :: tail := by
+    simp [showTxtEntry]
+  have hnows : NoWs (showIsdAsn ia ++ TXT_ENTRY_SEP :: showHost C h) :=
+    noWs_of_alphabet (fun c hc => mem_txtAlphabet_of (hb c hc))
+  have hsepia : TXT_ENTRY_SEP ∉ showIsdAsn ia := by rw [txt_consts.2.1]; exact addr_sep_not_in_ia ia
+  have hnia : NoWs (showIsdAsn ia) := fun c hc => hnows c (by simp [hc])
+  have hnh : NoWs (showHost C h) := fun c hc => hnows c (by simp [hc])
+  rw [hshape]
+  conv => lhs; unfold parseTxtLoop
+  have hsw : startsWith TXT_OPEN ((TXT_OPEN :: (showIsdAsn ia ++ TXT_ENTRY_SEP :: showHost C h)) ++ TXT_CLOSE :: tail) = true := by
+    simp [startsWith]
+  rw [hsw]
+  simp only [Bool.not_true, Bool.false_eq_true, if_false]
+  rw [find_append hclose]
+  simp only
+  rw [if_neg (by simp)]
+  have htake : (((TXT_OPEN :: (showIsdAsn ia ++ TXT_ENTRY_SEP :: showHost C h)) ++ TXT_CLOSE :: tail).take
+      (TXT_OPEN :: (showIsdAsn ia ++ TXT_ENTRY_SEP :: showHost C h)).length).drop 1 =
+      showIsdAsn ia ++ TXT_ENTRY_SEP :: showHost C h := by
+    rw [List.take_left']
+    · rfl
+    · rfl
+  have hdrop : ((TXT_OPEN :: (showIsdAsn ia ++ TXT_ENTRY_SEP :: showHost C h)) ++ TXT_CLOSE :: tail).drop
+      ((TXT_OPEN :: (showIsdAsn ia ++ TXT_ENTRY_SEP :: showHost C h)).length + 1) = tail := by
+    have : (TXT_OPEN :: (showIsdAsn ia ++ TXT_ENTRY_SEP :: showHost C h)) ++ TXT_CLOSE :: tail =
+        ((TXT_OPEN :: (showIsdAsn ia ++ TXT_ENTRY_SEP :: showHost C h)) ++ [TXT_CLOSE]) ++ tail := by simp
+    rw [this]
+    exact List.drop_left' (by simp; omega)
+  rw [htake, hdrop, trim_noWs hnows, splitOnce_append hsepia]
+  simp only
+  rw [trim_noWs hnia, trim_noWs hnh, isdAsn_parse_show ia ha.1, parseIp_showHost hC ha.2 hip]
+  simp only
+  split
+  · rfl
+  · split
+    · rfl
+    · split
+      · rfl
+      · cases parseTxtLoop C fuel (trim (List.drop 1 (trim tail))) <;> rfl
+
+theorem showTxt_ne_nil (C : HostCodec) : ∀ (l : List ScionAddr), l ≠ [] → showTxt C l ≠ []
+  | [], h => absurd rfl h
+  | [a], _ => by simp [showTxt, showTxtEntry]
+  | a :: b :: rest, _ => by simp [showTxt, showTxtEntry]
+
+theorem parseTxtLoop_showTxt {C : HostCodec} (hC : C.Lawful) : ∀ (l : List ScionAddr), l ≠ [] →
+    (∀ a ∈ l, a.Valid ∧ a.IsIp) → ∀ fuel, l.length ≤ fuel → parseTxtLoop C fuel (showTxt C l) = .ok l
+  | [], h, _, _, _ => absurd rfl h
+  | [a], _, hv, fuel, hf => by
+    cases fuel with
+    | zero => simp at hf
+    | succ fuel =>
+      have := parseTxtLoop_step hC a (hv a (by simp)).1 (hv a (by simp)).2 [] fuel
+      simp only [List.append_nil] at this
+      rw [showTxt, this]
+      simp [trim, trimEnd, trimStart]
+  | a :: b :: rest, _, hv, fuel, hf => by
+    cases fuel with
+    | zero => simp at hf
+    | succ fuel =>
+      have hv' : ∀ x ∈ b :: rest, x.Valid ∧ x.IsIp := fun x hx => hv x (List.mem_cons_of_mem _ hx)
+      have hstep := parseTxtLoop_step hC a (hv a (by simp)).1 (hv a (by simp)).2 (TXT_LIST_SEP :: showTxt C (b :: rest)) fuel
+      have hnw : NoWs (TXT_LIST_SEP :: showTxt C (b :: rest)) := by
+        intro c hc
+        rcases List.mem_cons.mp hc with rfl | hc
+        · decide
+        · exact txtAlphabet_noWs c (showTxt_chars hC _ hv' c hc)
+      have hnw' : NoWs (showTxt C (b :: rest)) := fun c hc => hnw c (List.mem_cons_of_mem _ hc)
+      have hrec := parseTxtLoop_showTxt hC (b :: rest) (by simp) hv' fuel (by simp at hf ⊢; omega)
+      have hne := showTxt_ne_nil C (b :: rest) (by simp)
+      have e : showTxt C (a :: b :: rest) = showTxtEntry C a ++ TXT_LIST_SEP :: showTxt C (b :: rest) := by
+        simp [showTxt]
+      rw [e, hstep, trim_noWs hnw]
+      simp only [List.isEmpty_cons, Bool.false_eq_true, if_false, startsWith, beq_self_eq_true, Bool.not_true,
+        List.drop_succ_cons, List.drop_zero]
+      rw [trim_noWs hnw', hrec]
+      cases hs : showTxt C (b :: rest) with
+      | nil => exact absurd hs hne
+      | cons x xs => simp
+
+/-- **the documented record grammar parses back**: for every non-empty list of valid SCION IP addresses,
+    `"[ia,host]" *( "," "[ia,host]" )` is parsed to exactly that list -/
+theorem txt_parse_show (C : HostCodec) (hC : C.Lawful) (l : List ScionAddr) (hne : l ≠ [])
+    (hv : ∀ a ∈ l, a.Valid ∧ a.IsIp) : parseTxt C (showTxt C l) = .ok l := by
+  have hnw : NoWs (showTxt C l) := fun c hc => txtAlphabet_noWs c (showTxt_chars hC l hv c hc)
+  unfold parseTxt
+  simp only [trim_noWs hnw]
+  cases hs : showTxt C l with
+  | nil => exact absurd hs (showTxt_ne_nil C l hne)
+  | cons x xs =>
+    simp only [List.isEmpty_cons, Bool.false_eq_true, if_false]
+    rw [← hs]
+    apply parseTxtLoop_showTxt hC l hne hv
+    -- the fuel (characters + 1) exceeds the number of entries
+    have : ∀ (l : List ScionAddr), l.length ≤ (showTxt C l).length := by
+      intro l
+      induction l with
+      | nil => simp
+      | cons a t ih =>
+        cases t with
+        | nil => simp [showTxt, showTxtEntry]
+        | cons b r =>
+          have e : showTxt C (a :: b :: r) = showTxtEntry C a ++ TXT_LIST_SEP :: showTxt C (b :: r) := by simp [showTxt]
+          rw [e]; simp at ih ⊢; omega
+    have := this l
+    omega
+
+
+/-! ## the hypotheses on the IP codec are satisfiable (non-vacuity of every theorem that takes `C.Lawful`)
+
+A deliberately simple codec – `"." decimal` for IPv4 values, `":" hex` for IPv6 values – is lawful.  (That *std's*
+codec satisfies the same hypotheses is checked by the harness on every run, on std itself.) -/
+
+def toyCodec : HostCodec where
+  show4 a := '.' :: showNat 10 a
+  parse4 s := match s with
+    | c :: r => if c = '.' ∧ r.all (fun x => x ∈ ipv4Alphabet) then parseUInt 10 32 r else none
+    | [] => none
+  show6 a := ':' :: showNat 16 a
+  parse6 s := match s with
+    | c :: r => if c = ':' ∧ r.all (fun x => x ∈ ipv6Alphabet) then parseUInt 16 128 r else none
+    | [] => none
+
+theorem showNat10_chars : ∀ (n : Nat), ∀ c ∈ showNat 10 n, c ∈ ipv4Alphabet := by
+  have hd : ∀ d, d < 10 → digitChar d ∈ ipv4Alphabet := by decide
+  intro n
+  induction n using Nat.strongRecOn with
+  | _ n ih =>
+    by_cases h : n < 10
+    · rw [showNat_small (by omega) h]; intro c hc; simp at hc; subst hc; exact hd _ h
+    · rw [showNat_step (by omega) (by omega)]
+      intro c hc
+      rcases List.mem_append.mp hc with hc | hc
+      · exact ih _ (Nat.div_lt_self (by omega) (by omega)) c hc
+      · simp at hc; subst hc; exact hd _ (Nat.mod_lt _ (by omega))
+
+theorem lower_sub_ipv6 : ∀ c ∈ lowerDigits, c ∈ ipv6Alphabet := by decide
+
+theorem toyCodec_lawful : toyCodec.Lawful where
+  rt4 a ha := by
+    simp [toyCodec, parseUInt_showNat (Or.inl rfl) ha]
+    exact showNat10_chars a
+  rt6 a ha := by
+    simp [toyCodec, parseUInt_showNat (Or.inr rfl) ha]
+    exact fun c hc => lower_sub_ipv6 c (showNat_chars (by omega) a c hc)
+  range4 s a h := by
+    simp only [toyCodec] at h
+    split at h
+    · split at h
+      · exact (parseUInt_spelling (Or.inl rfl) h).2
+      · cases h
+    · cases h
+  range6 s a h := by
+    simp only [toyCodec] at h
+    split at h
+    · split at h
+      · exact (parseUInt_spelling (Or.inr rfl) h).2
+      · cases h
+    · cases h
+  alpha4 s a h := by
+    simp only [toyCodec] at h
+    split at h
+    · next c r =>
+      split at h
+      · next hc =>
+        intro x hx
+        rcases List.mem_cons.mp hx with rfl | hx
+        · rw [hc.1]; decide
+        · have := List.all_eq_true.mp hc.2 x hx; simpa using this
+      · cases h
+    · cases h
+  alpha6 s a h := by
+    simp only [toyCodec] at h
+    split at h
+    · next c r =>
+      split at h
+      · next hc =>
+        intro x hx
+        rcases List.mem_cons.mp hx with rfl | hx
+        · rw [hc.1]; decide
+        · have := List.all_eq_true.mp hc.2 x hx; simpa using this
+      · cases h
+    · cases h
+  colon6 a _ := by simp [toyCodec]
+
+example : ∃ C : HostCodec, C.Lawful := ⟨toyCodec, toyCodec_lawful⟩
+example : parseSocketAddr toyCodec (showSocketAddr toyCodec ⟨0x1ff0000000110, .v4 0x0a000001, 1000⟩) =
+    .ok ⟨0x1ff0000000110, .v4 0x0a000001, 1000⟩ :=
+  socketAddr_parse_show toyCodec toyCodec_lawful _ ⟨by decide, by show 0x0a000001 < 2 ^ 32; decide, by decide⟩
+
+/-! ## concrete instances with std's codec (non-vacuity of the statements; replayed on the real code by the harness corpus) -/
+
+example : parseSocketAddr stdCodec "[1-ff00:0:110,10.0.0.1]:1000".toList = .ok ⟨0x1ff0000000110, .v4 0x0a000001, 1000⟩ := by decide
+example : parseSocketAddr stdCodec "[1-ff00:0:110,::1]:80".toList = .ok ⟨0x1ff0000000110, .v6 1, 80⟩ := by decide
+example : parseScionAddr stdCodec "1-ff00:0:110,CS_M".toList = .ok ⟨0x1ff0000000110, .svc 0x8002⟩ := by decide
+example : parseTxt stdCodec "[19-ff00:0:110,192.0.2.1] , [19-ff00:0:111,2001:db8::1]".toList =
+    .ok [⟨0x13ff0000000110, .v4 0xc0000201⟩, ⟨0x13ff0000000111, .v6 0x20010db8000000000000000000000001⟩] := by decide
+
+/-! ## the defects that were repaired (DESIGN §9 rows 1, 2, 17) -/
+
+/-- the splitter as it was panicked on `":80"` (slice `[1..len-1]` of the empty prefix) … -/
+theorem legacy_socket_panic_witness :
+    parseSocketLegacyT (parseScionAddrT parseSvc) ":80".toList = .panic := by decide
+
+/-- … and accepted a string whose first and last character before the port are not brackets, dropping them -/
+theorem legacy_socket_garbage_witness :
+    parseSocketLegacyT (parseScionAddrT stdCodec.parse4) "x1-ff00:0:110,10.0.0.1y:1000".toList =
+      .ok ((0x1ff0000000110, 0x0a000001), 1000) := by decide
+
+/-- the repaired code rejects both, and the dangling TXT separator -/
+theorem repaired_witnesses :
+    parseSocketAddr stdCodec ":80".toList = .err ∧
+    parseSocketAddr stdCodec "x1-ff00:0:110,10.0.0.1y:1000".toList = .err ∧
+    parseSvc (showSvc 3) = some 3 ∧ showSvc 3 = "<SVC:0x0003>".toList ∧
+    parseTxt stdCodec "[19-ff00:0:110,192.0.2.1],".toList = .err := by decide
+
 end ScionVerif.AddrText
